@@ -320,6 +320,11 @@ def rule_peg_combinators(ctx):
             raise A.AnchorLost(f"impl/src/fmt/parsing.rs::{name}", "leaf parser missing")
         ctx.instance(f"leaf:{name}")
         idx = [A.render(x["index"]) for x, _ in A.find(fn.block, "Expr::Index")]
+        # `input.strip_prefix(<the same char / str>)` is std's spelling of 'test the prefix, advance by its length'
+        prm_ = [x for p_ in fn.node["sig"]["inputs"] if A.kind(p_) == "FnArg::Typed" for x in A.pat_idents(p_["0"]["pat"])]
+        sp_ = [mc_ for mc_, _ in A.find(fn.block, "Expr::MethodCall") if mc_["method"]["sym"] == "strip_prefix" and len(mc_["args"]) == 1 and A.render(A.peel(mc_["args"][0])) in prm_]
+        if not idx and len(sp_) == 1 and name in ("char", "str"):
+            continue
         if not idx or any(i != needle + ".." for i in idx):
             ctx.report(
                 f"leaf:{name}",
